@@ -7,6 +7,7 @@
 package cluster2
 
 import (
+	"context"
 	"fmt"
 	"sort"
 	"strconv"
@@ -132,7 +133,11 @@ func deployOpts(app, entry, pod string, count int, strategy string, res resource
 
 // deploy runs CreateWorkload and drains the channel.
 func deploy(cl *ckit.Cluster, opts *types.DeployOptions) ([]*types.CreateWorkloadMessage, error) {
-	ch, err := cl.C.CreateWorkload(cl.Ctx(), opts)
+	return deployCtx(cl.Ctx(), cl, opts)
+}
+
+func deployCtx(ctx context.Context, cl *ckit.Cluster, opts *types.DeployOptions) ([]*types.CreateWorkloadMessage, error) {
+	ch, err := cl.C.CreateWorkload(ctx, opts)
 	if err != nil {
 		return nil, err
 	}
@@ -228,4 +233,6 @@ func addNodeOpts(cl *ckit.Cluster, o *types.AddNodeOptions) *types.Node {
 	return nil
 }
 
-func addNode(cl *ckit.Cluster, s ckit.NodeSpec) *types.Node { return addNodeOpts(cl, cl.AddNodeOptions(s)) }
+func addNode(cl *ckit.Cluster, s ckit.NodeSpec) *types.Node {
+	return addNodeOpts(cl, cl.AddNodeOptions(s))
+}
